@@ -592,6 +592,9 @@ class Schema:
             return self.new_tree(eng, args, st)
         if name == "MultiDiGraph":
             return self.nx.new_graph(eng, st)
+        if name == "zip" and len(args) == 2 and args[0].k == "seq" and args[1].k == "seq":
+            # zip of two sequences: pairs (a[i], b[i]) for i below the shorter length, in order (iterated in invariant mode)
+            return SV("zip", x=(args[0], args[1]))
         if name == "itertools.chain.from_iterable":
             outer = eng.bags_of(args[0], st)
             res = []
